@@ -391,6 +391,7 @@ class Session:
         self.nid = 0
         self.d13_at_restart = False
         self.killed_at = None
+        self.mute_testreq = False  # the counterparty does not answer the endpoint's TestRequest by itself
 
     # ---- helpers -------------------------------------------------------------------------------
     def fail(self, sig, what, expected, observed):
@@ -443,7 +444,7 @@ class Session:
                           "already consumed", f"MsgSeqNum >= {self.p_exp}", f"35={mt} 34={seq}")
         if mt == "2":  # a ResendRequest is served whatever its own number is (FIX session rules)
             out.append(("RESEND", int(f[7])))
-        if mt == "1":
+        if mt == "1" and not self.mute_testreq:
             out.append(("0", [(112, f.get(112, "0"))]))
         return out
 
@@ -681,7 +682,28 @@ def scen_quiescent(impl, rng, role, variant):
         s.peer_send("2", [(7, str(max(1, s.a.next_out - 3))), (16, "0")], record=False)
     elif variant == "out":
         s.app_out()
-    nothing_lost = s.a.next_in == s.p_out and s.a.state == 17
+    elif variant == "hb-wrongid":           # the processed frame itself ends the session (and is counted)
+        s.mute_testreq = True
+        s.tick_clock()
+        s.other(("testreq", s.now))
+        tid = s.a.test_req_id if s.a.test_req_id is not None else 0
+        s.peer_send("0", [(112, str(tid + 1))])      # in sequence, wrong TestReqID: Logout + disconnect
+        s.mute_testreq = False
+    elif variant == "peer-logout":          # Logout from the counterparty
+        s.peer_send("5", [(58, "bye")])
+    elif variant == "defect-compid":        # integrity defect: dropped with a Logout, not counted
+        s.tick_clock()
+        seq = s.p_out
+        s.p_out += 1
+        s.p_sent[seq] = ("0", [])
+        m = S.defective(s.a, "sender-wrong", "0", [], seq, False, s.now)
+        eff, killed = impl.run_event("all", ("recv", s.now, m))
+        s.trace.append(["recv-defect", "sender-wrong", seq])
+        s._react(s._after(eff, killed), eff, killed)
+    elif variant == "defect-toolow":
+        s.deliver_frame("0", [], max(1, s.p_out - 1), False)
+    ends = variant in ("hb-wrongid", "peer-logout", "defect-compid", "defect-toolow")
+    nothing_lost = s.a.next_in == s.p_out and (s.a.state == 17 or (ends and s.a.state <= 3))
     restart_and_continue(s, False, nothing_lost)
     s.final_checks()
     return s
@@ -769,7 +791,8 @@ def run_scenarios(impl, rng, rounds, stats):
 
     for _ in range(rounds):
         for role in (1, 2):
-            for v in ("app", "out", "seqreset-jump", "seqreset-next", "gapfill-multi", "gap-resend", "resend-served"):
+            for v in ("app", "out", "seqreset-jump", "seqreset-next", "gapfill-multi", "gap-resend", "resend-served",
+                      "hb-wrongid", "peer-logout", "defect-compid", "defect-toolow"):
                 seed = rng.randrange(1 << 30)
                 s = scen_quiescent(impl, _rng(seed), role, v)
                 collect(s, "quiescent:" + v, {"role": role, "seed": seed, "variant": v})
@@ -888,7 +911,12 @@ def oracle(ctx, disagreements, broken):
         shutil.rmtree(tmp, ignore_errors=True)
     # smallest first, one per signature is enough for the report; keep a bounded list
     failures.sort(key=lambda f: len(json.dumps(f.get("input"), default=str)))
-    return failures[:400]
+    kept, per = [], {}
+    for f in failures:   # bounded, but never at the expense of a signature: at most 40 per signature
+        per[f["signature"]] = per.get(f["signature"], 0) + 1
+        if per[f["signature"]] <= 40:
+            kept.append(f)
+    return kept
 
 
 def replay_history_oracle(impl, hist):
